@@ -90,10 +90,11 @@ fn grammar_fields(g: &Grammar) -> String {
                 None => ("none", String::new()),
             };
             format!(
-                "{{\"name\":{},\"rk\":\"{}\",\"rs\":{},\"prio\":{},\"assoc\":{},\"content\":{},\"reach\":{}}}",
+                "{{\"name\":{},\"rk\":\"{}\",\"rs\":{},\"rl\":{},\"prio\":{},\"assoc\":{},\"content\":{},\"reach\":{}}}",
                 esc(&t.name),
                 k,
                 esc(&s),
+                s.len(),
                 t.prio,
                 assoc(&t.assoc),
                 t.has_content,
